@@ -183,6 +183,32 @@ def case_mask_subsets(col, p):
     col.distinct('nontrivial', ('mask_subsets', shape, folded))
 
 
+def case_integer_valued(col, p):
+    """count data: spectra whose entries are ALL integer-valued, with one huge, infinite or negative-zero entry in turn"""
+    import dadi
+    tmp = _tmp()
+    n = 0
+    try:
+        fn = os.path.join(tmp, 'i.fs')
+        for shape in ((5,), (3, 4)):
+            for v in (0.0, 7.0, 2.0 ** 62, 2.0 ** 63, 2e19, 1e300, float('inf'), float('-inf'), -3.0, -0.0):
+                for idx in (1, int(np.prod(shape)) - 2):
+                    data = np.arange(int(np.prod(shape)), dtype=float).reshape(shape)
+                    data.flat[idx] = v
+                    fs = dadi.Spectrum(data.copy(), mask_corners=False)
+                    fs.to_file(fn, precision=17)
+                    back = dadi.Spectrum.from_file(fn, mask_corners=False)
+                    col.tick(transitions=2)
+                    n += 1
+                    bd = np.asarray(back.data)
+                    if bd.shape != data.shape or not all(_same_float(float(a), float(b)) for a, b in zip(bd.ravel(), data.ravel())):
+                        col.violation('C14:file_roundtrip:integer_valued_data', dict(p, shape=shape, value=repr(v), idx=idx), {'got': repr(float(bd.flat[idx]))})
+        col.tick(states=n, traces=n)
+    finally:
+        shutil.rmtree(tmp, ignore_errors=True)
+    col.distinct('nontrivial', ('integer_valued',))
+
+
 def case_format(col, p):
     """labels x comments x foldmaskinfo x mask_corners(read) x mask patterns, for one (shape, folded, gz)"""
     import dadi
@@ -418,7 +444,7 @@ def case_layout(col, p):
     col.distinct('nontrivial', ('layout', shape, gz))
 
 
-CASES = {'layout': case_layout, 'mask_subsets': case_mask_subsets, 'values': case_values, 'format': case_format, 'array_io': case_array_io, 'pickle': case_pickle}
+CASES = {'integer_valued': case_integer_valued, 'layout': case_layout, 'mask_subsets': case_mask_subsets, 'values': case_values, 'format': case_format, 'array_io': case_array_io, 'pickle': case_pickle}
 
 
 def _dispatch(col, case):
@@ -442,6 +468,7 @@ def run(ctx):
                 cases.append({'kind': 'format', 'shape': shape, 'folded': folded, 'gz': gz})
                 if folded:
                     cases.append({'kind': 'format', 'shape': shape, 'folded': folded, 'gz': gz, 'assigned': True})
+    cases.append({'kind': 'integer_valued'})
     if ctx.quick:
         ctx.note('quick: format lattice on shapes up to 3-D; thorough adds the 4-D and 5-D shapes (value lattice always covers all shapes)')
     if not ctx.quick:
@@ -464,7 +491,7 @@ def run(ctx):
     a, b = Collector(), Collector()
     _dispatch(a, cases[0]); _dispatch(b, cases[0])
     assert a.viol_count == b.viol_count and a.counters == b.counters
-    cases.sort(key=lambda c: -int(np.prod(c['shape'])) * (20 if c['kind'] == 'format' else 1))
+    cases.sort(key=lambda c: -int(np.prod(c.get('shape', (1,)))) * (20 if c['kind'] == 'format' else 1))
     explore.pmap(ctx, _dispatch, cases, chunk=1)
     ctx.tick(evaluations=len(cases))
     for c in (cases[0], cases[len(cases) // 2], cases[-1]):
